@@ -256,6 +256,11 @@ func (C10) Run(t *testing.T, sc any) *sim.Outcome {
 						f = o.Events[i].Path
 					}
 				}
+				if k < len(o.Events) && o.Events[k].Op == "inode" {
+					// cancelled inside the per-inode hook itself: nothing of that file has been looked
+					// at yet, it is a "further file" like any other
+					f = "\x00none"
+				}
 			}
 			for i, e := range o.Events {
 				if i <= k {
